@@ -225,6 +225,15 @@ def build_inputs(con, engine):
     if a.kwarg is not None:
         from .engine import ConstDict
         env[a.kwarg.arg] = ConstDict([])
+        kwmap = con.options.get("kwargs")        # **kwargs of the function under contract: name -> ghost input
+        if kwmap:
+            ents = []
+            for kname, gname in kwmap.items():
+                v, f = fresh(con.params[gname], gname)
+                env[gname] = v
+                facts.extend(f)
+                ents.append((kname, v))
+            env[a.kwarg.arg] = ConstDict(ents)
     # extra ghost inputs declared by the contract (e.g. memory contents)
     for n, sh in con.params.items():
         if n not in env:        # closure variables of a nested function / ghost inputs
